@@ -554,7 +554,28 @@ namespace
 
     // Integer expression tree (for bit-level dataflow rules): constants, variables, the operators + - & | ^ << >> ~, width-changing
     // casts, element reads `field.at(i)` / `field[i]`, calls with their arguments.  Anything else is an opaque leaf {"op":"?"}.
+    void tyInfo(json::Object& O, QualType T)
+    {
+        if (G.AC && !T.isNull() && T->isIntegralOrEnumerationType() && !T->isDependentType())
+        {
+            O["w"] = (int64_t)G.AC->getTypeSize(T);
+            O["sgn"] = T->isSignedIntegerOrEnumerationType();
+        }
+    }
+
+    json::Value exprTree0(const Expr* E, int& budget);
+
     json::Value exprTree(const Expr* E, int& budget)
+    {
+        json::Value V = exprTree0(E, budget);
+        if (E)
+            if (auto* O = V.getAsObject())
+                if (!O->get("w") && !O->get("c"))
+                    tyInfo(*O, E->IgnoreParens()->getType());
+        return V;
+    }
+
+    json::Value exprTree0(const Expr* E, int& budget)
     {
         json::Object O;
         if (!E || --budget < 0)
@@ -591,6 +612,8 @@ namespace
                     O["op"] = "cast";
                     O["w"] = (int64_t)wt;
                     O["sgn"] = T->isSignedIntegerOrEnumerationType();
+                    O["fw"] = (int64_t)wf;
+                    O["fs"] = C->getSubExpr()->getType()->isSignedIntegerOrEnumerationType();
                     json::Array A;
                     A.push_back(exprTree(C->getSubExpr(), budget));
                     O["a"] = std::move(A);
@@ -732,6 +755,14 @@ namespace
                 auto a = affineOf(E);
                 if (!(a.kind() == json::Value::Null))
                     O["aff"] = std::move(a);
+                const Expr* SE = stripCasts(E);
+                if (SE && (isa<BinaryOperator>(SE) || isa<CXXOperatorCallExpr>(SE) || isa<ArraySubscriptExpr>(SE) || isa<CallExpr>(SE)))
+                {
+                    int budget = 64;
+                    auto x = exprTree(E, budget);
+                    if (budget >= 0)
+                        O["xt"] = std::move(x);
+                }
             }
             auto c = constOf(E);
             if (!(c.kind() == json::Value::Null))
